@@ -38,6 +38,20 @@ def match_known(known, failure):
     return None
 
 
+def crash_signature(text):
+    """A stable name for a crash: sanitizer summary site, failed library assertion, or hang."""
+    m = re.search(r"SUMMARY: \w+Sanitizer: ([\w-]+) \S+ in (\w+)", text)
+    if m:
+        return f"{m.group(1)}:{m.group(2)}"
+    m = re.search(r"([\w/\.]+):(\d+):\d+: runtime error: ([^\n]{0,60})", text)
+    if m:
+        return f"ubsan:{os.path.basename(m.group(1))}:{m.group(3).strip()[:40]}"
+    m = re.search(r"Bug detected in (\S+) at line (\d+)", text)
+    if m:
+        return f"bug_assert:{os.path.basename(m.group(1))}:{m.group(2)}"
+    return None
+
+
 def write_replay(prop, failure):
     os.makedirs(REPLAY_DIR, exist_ok=True)
     blob = json.dumps({"property": prop, **failure}, sort_keys=True, default=str, indent=1)
@@ -128,7 +142,11 @@ def main(argv=None):
             except Exception:
                 case = {"journal": res.get("journal", "")}
             ckey = "crash"
-            if isinstance(case, dict) and case.get("_key"):
+            sig = crash_signature(res["crash"] + " " + res.get("stderr", ""))
+            if sig:
+                # the failing site reported by the sanitizer / assertion identifies the defect
+                ckey = "crash:" + sig
+            elif isinstance(case, dict) and case.get("_key"):
                 ckey = "crash:" + str(case["_key"])
             failures.append({
                 "key": ckey, "case": case if case is not None else {"shard": res.get("spec")},
